@@ -1,7 +1,7 @@
 /-
 C15 — model of the DNS client `tbox::network::DnsRequest` (modules/network/dns_request.{h,cpp})
 with the timeout ring of `eventx::TimeoutMonitor` (5 slots, one-second tick), transcribed from
-the tree WITH patches/C15-01, C15-02 and C15-03 applied (every fetch checked, locals initialised,
+the tree WITH patches/C15-01 … C15-04 applied (every fetch checked, locals initialised,
 pointer hop limit).  The transcription of the unpatched parser is in `Orig.lean`.
 
 Part 1: reply parsing (`FetchDomain`, the body of `onUdpRecv`).
@@ -14,7 +14,7 @@ for timeouts — while `TimeoutMonitor::onTimerTick` is still walking the slot i
 The as-found order (callback first, erase afterwards) is kept in `Orig.lean`.
 
 Ghost fields (never printed, never branch on): `P.acc`, `P.jumps`, `ARec.off`, `Req.born`,
-`St.now`, `St.called`, `St.cancelled`, `St.refused`, `St.idReuse`, `Event.age`.
+`St.now`, `St.called`, `St.cancelled`, `St.refused`, `Event.age`.
 -/
 import TboxModel.C15.Deserializer
 namespace Tbox.C15
@@ -148,23 +148,26 @@ structure Event where
   age : Nat := 0         -- ghost: ticks since the lookup was issued
 deriving Repr, DecidableEq
 
+/-- `DnsRequest::TimeoutToken`: what the timeout ring stores — the id and the sequence number of
+the request (the model uses the lookup's serial number as sequence number: both are unique) -/
+abbrev Token := Nat × Nat
+
 structure St where
   servers : Nat := 1                   -- dns_ip_vec_.size()
   alloc : Nat := 0                     -- req_id_alloc_ (uint16_t)
   reqs : List (Nat × Req) := []        -- requests_
-  r0 : List Nat := []                  -- timeout ring: curr_item_->items
-  r1 : List Nat := []                  --   curr_item_->next->items  (handled at the next tick)
-  r2 : List Nat := []
-  r3 : List Nat := []
-  r4 : List Nat := []
+  r0 : List Token := []                -- timeout ring: curr_item_->items, NEWEST FIRST
+  r1 : List Token := []                --   curr_item_->next->items  (handled at the next tick)
+  r2 : List Token := []
+  r3 : List Token := []
+  r4 : List Token := []
   valueNumber : Nat := 0               -- value_number_ (timer enabled iff > 0)
   nextSerial : Nat := 0                -- lookups issued so far (harness-side callback index)
   scripts : List (List Act) := []      -- harness-side table of callback scripts
   now : Nat := 0                       -- ghost: ticks so far
   called : List Nat := []              -- ghost: serials whose callback ran, in order
-  cancelled : List Nat := []           -- ghost: serials cancelled while outstanding
-  refused : List Nat := []             -- ghost: serials of refused lookups (no server configured)
-  idReuse : Bool := false              -- ghost: some lookup was handed an id still outstanding / still in the ring
+  cancelled : List Nat := []           -- ghost: serials cancelled while outstanding (newest first)
+  refused : List Nat := []             -- ghost: serials of refused lookups (newest first)
 deriving Repr, DecidableEq
 
 def find (reqs : List (Nat × Req)) (id : Nat) : Option Req :=
@@ -173,29 +176,38 @@ def find (reqs : List (Nat × Req)) (id : Nat) : Option Req :=
 def erase (reqs : List (Nat × Req)) (id : Nat) : List (Nat × Req) :=
   reqs.filter (fun e => e.1 != id)
 
-def inRing (st : St) (id : Nat) : Bool :=
-  st.r0.contains id || st.r1.contains id || st.r2.contains id || st.r3.contains id || st.r4.contains id
+/-- `do { req_id = ++req_id_alloc_; } while (req_id == 0 || requests_.find(req_id) != requests_.end());`
+with fuel (`probe_good`: 65 536 steps find an id whenever fewer than 65 535 lookups are outstanding) -/
+def probe (reqs : List (Nat × Req)) : Nat → Nat → Nat
+  | 0, a => a
+  | f + 1, a =>
+    let id := (a + 1) % 65536
+    if id = 0 ∨ (find reqs id).isSome then probe reqs f id else id
 
-/-- `request()` with callback script `sid`: returns the id (0 = refused, no server configured) -/
+/-- a refused `request()`: returns the invalid id 0, registers nothing -/
+def refuse (st : St) : St × Nat :=
+  ({ st with nextSerial := st.nextSerial + 1, refused := st.nextSerial :: st.refused }, 0)
+
+/-- `request()` with callback script `sid`: returns the id (0 = refused: no server configured, or
+all 65 535 ids outstanding) -/
 def lookup (st : St) (sid : Nat) : St × Nat :=
-  if st.servers = 0 then
-    ({ st with nextSerial := st.nextSerial + 1, refused := st.refused ++ [st.nextSerial] }, 0)
+  if st.servers = 0 then refuse st
+  else if st.reqs.length ≥ 65535 then refuse st
   else
-    let id := (st.alloc + 1) % 65536
-    -- requests_[req_id] = req; timeout_monitor_.add(req_id);
+    let id := probe st.reqs 65536 st.alloc
+    -- requests_[req_id] = req; timeout_monitor_.add({req_id, req.seq});
     ({ st with alloc := id,
                reqs := (id, { serial := st.nextSerial, script := st.scripts.getD sid [], born := st.now })
                         :: erase st.reqs id,
-               r0 := st.r0 ++ [id],
+               r0 := (id, st.nextSerial) :: st.r0,
                valueNumber := st.valueNumber + 1,
-               nextSerial := st.nextSerial + 1,
-               idReuse := st.idReuse || (find st.reqs id).isSome || inRing st id }, id)
+               nextSerial := st.nextSerial + 1 }, id)
 
 /-- `cancel()` -/
 def cancel (st : St) (id : Nat) : St × Bool :=
   match find st.reqs id with
   | none => (st, false)
-  | some r => ({ st with reqs := erase st.reqs id, cancelled := st.cancelled ++ [r.serial] }, true)
+  | some r => ({ st with reqs := erase st.reqs id, cancelled := r.serial :: st.cancelled }, true)
 
 /-- the body of a callback: the API calls of its script, in order (none of them can run another
 callback synchronously) -/
@@ -245,21 +257,23 @@ def onRecv (st : St) (d : List Byte) : St × List Event :=
     | .ok rep _ => applyReply st rep
     | _ => (st, [])
 
-/-- `onRequestTimeout()` -/
-def onTimeout (acc : St × List Event) (id : Nat) : St × List Event :=
-  match find acc.1.reqs id with
+/-- `onRequestTimeout(token)`: `if (req == nullptr || req->seq != token.seq) return;` -/
+def onTimeout (acc : St × List Event) (t : Token) : St × List Event :=
+  match find acc.1.reqs t.1 with
   | none => acc
   | some r =>
-    let (st', e) := finish acc.1 id r { status := .timeout }
-    (st', acc.2 ++ e)
+    if r.serial = t.2 then
+      let (st', e) := finish acc.1 t.1 r { status := .timeout }
+      (st', acc.2 ++ e)
+    else acc
 
 /-- one second passes: the monitor's timer fires iff it is enabled.
 `curr_item_ = curr_item_->next; swap(tobe_handle, curr_item_->items); value_number_ -= n;` and only
-then the callbacks: what they `add()` lands in the (now empty) current slot `r0`. -/
+then the callbacks (oldest entry first): what they `add()` lands in the (now empty) current slot `r0`. -/
 def tick (st : St) : St × List Event :=
   if st.valueNumber = 0 then (st, [])
   else
-    let items := st.r1
+    let items := st.r1.reverse
     let st1 := { st with r0 := [], r1 := st.r2, r2 := st.r3, r3 := st.r4, r4 := st.r0,
                          valueNumber := st.valueNumber - items.length, now := st.now + 1 }
     items.foldl onTimeout (st1, [])
